@@ -17,6 +17,7 @@ import (
 //	101        perm(3) at Dijkstra's relaxation range and at OutEdges, flips at the
 //	           queue fill and Copy ranges
 //	102        independent flip at every range site of the program
+//	103        flip at Graph.Vertices (insertion elsewhere)
 func hOrderSites(sv int) {
 	vnCut("(*github.com/hashicorp/go-argmapper/internal/graph.Graph).String")
 	switch {
@@ -36,6 +37,10 @@ func hOrderSites(sv int) {
 		}
 	case sv == 102:
 		vnScheduleDefault(vnFlip, 0)
+	case sv == 103:
+		// the order in which the vertices of the call graph are enumerated (values are
+		// offered to converter generators in that order): forward or reverse, per enumeration
+		vnSchedule("Graph.Vertices#0", vnFlip, 0)
 	}
 }
 
